@@ -272,7 +272,7 @@ def spec(tier, seed):
     maxa = 3 if tier == "quick" else 4
     n = 0
     for li, sp in enumerate(lambda_lists(maxp)):
-        if tier == "quick" and len(sp[0]) == maxp and li % 5:
+        if len(sp[0]) == maxp and li % (5 if tier == "quick" else 6):
             continue  # quick: every 5th of the largest lambda lists (all of them in thorough)
         ll, nd = hy_lambda_list(sp)
         names = bound_tuple(sp)
@@ -320,7 +320,7 @@ def spec(tier, seed):
                  "    return def_side(P_%s, X_%s, [], pos, kw)" % (fn, fn)]
             obs.append(Ob(fn, "\n".join(L), sample="def side (literal defaults): %s  ==  %s" % (hytext, pytext), group="def-literal-default", weight=3))
     for ci, ks in enumerate(call_shapes(maxa)):
-        if tier == "quick" and len(ks) == maxa and ci % 4:
+        if len(ks) == maxa and ci % (4 if tier == "quick" else 5):
             continue
         if ks.count("dstar") >= 3:
             continue  # three symbolic dicts: does not finish within the budget
